@@ -25,6 +25,12 @@ RENAMES = {
     "aquacrop/initialize/compute_crop_calendar.py": {"tCGC": "t_growth", "tGDD": "t_decl", "tCD": "t_decl_cd"},
     "aquacrop/solution/capillary_rise.py": {"compi": "k", "WCr": "w_cr"},
     "aquacrop/solution/soil_evaporation.py": {"comp": "ci", "Wcheck": "w_lim"},
+    # locals the round-9..11 rules look at
+    "aquacrop/solution/pre_irrigation.py": {"PreIrr": "pre_depth", "thCrit": "th_target"},
+    "aquacrop/solution/HIadj_pre_anthesis.py": {"Br": "b_ratio", "ratio_low": "r_lo", "ratio_upp": "r_up"},
+    "aquacrop/solution/transpiration.py": {"Sink": "uptake", "ThToExtract": "th_need", "dWC": "refill"},
+    "aquacrop/solution/drainage.py": {"thX": "th_thr", "drainsum": "dsum"},
+    "aquacrop/initialize/read_model_initial_conditions.py": {"hydf": "per_layer", "compdf": "row"},
 }
 
 
